@@ -20,15 +20,18 @@ inductive Reach (cfg : Cfg) (G : St → Act → St → Prop) : St → Prop
 
 /-- hypothesis 1: the kick path clears the in-flight slot only while no attempt is in flight -/
 def G1 (s : St) (a : Act) (_ : St) : Prop := Guard1 s a
-/-- hypothesis 2: the kick path is not entered and the player stays connected -/
-def G2 (_ : St) (_ : Act) (s' : St) : Prop := NoKick s' ∧ s'.active = true
+/-- hypothesis 2: the kick path is not entered, the player stays connected, and a deadline watcher does not run
+    while its connection's read loop is inside a switch-over section -/
+def G2 (s : St) (a : Act) (s' : St) : Prop :=
+  NoKick s' ∧ s'.active = true ∧ ∀ c, a = .watch c → swA (s.conns c).h = false
 
-def Repaired (cfg : Cfg) : Prop := cfg.atomicSet = true ∧ cfg.foreignReset = false ∧ cfg.joinBySnapshot = false
+def Repaired (cfg : Cfg) : Prop :=
+  cfg.atomicSet = true ∧ cfg.foreignReset = false ∧ cfg.joinBySnapshot = false ∧ cfg.watcherCloses = true
 
 theorem reach1_inv1 {cfg : Cfg} (hr : Repaired cfg) {s : St} (h : Reach cfg G1 s) : Inv1 s := by
   induction h with
   | init hi => exact inv1_init _ hi.1 hi.2.1
-  | step _ hg hs ih => exact inv1_step hr.1 hr.2.1 ih hg hs
+  | step _ hg hs ih => exact inv1_step hr.1 hr.2.1 hr.2.2.2 ih hg hs
 
 theorem resetPc_isKickPc (pc : PC) (h : resetPc pc = true) : isKickPc pc = true := by
   cases pc <;> simp_all [resetPc, isKickPc]
@@ -55,12 +58,16 @@ theorem noKickB_iff (s : St) : noKickB s = true ↔ NoKick s := by
   unfold noKickB NoKick
   simp [List.all_eq_true]
 
+def watchOK (s : St) : Act → Bool
+  | .watch c => !swA (s.conns c).h
+  | _ => true
+
 /-- run a schedule, checking hypothesis 2 after every step -/
 def run2 (cfg : Cfg) : St → List Act → Option St
   | s, [] => some s
   | s, a :: as =>
     match step cfg s a with
-    | some s' => if noKickB s' && s'.active then run2 cfg s' as else none
+    | some s' => if noKickB s' && s'.active && watchOK s a then run2 cfg s' as else none
     | none => none
 
 theorem run2_reach {cfg : Cfg} {s : St} (hs : Reach cfg G2 s) : ∀ (as : List Act) (s' : St),
@@ -76,7 +83,8 @@ theorem run2_reach {cfg : Cfg} {s : St} (hs : Reach cfg G2 s) : ∀ (as : List A
       split at h
       · rename_i hg
         simp at hg
-        exact ih (Reach.step hs ⟨(noKickB_iff s1).mp hg.1, hg.2⟩ hstep) s' h
+        refine ih (Reach.step hs ⟨(noKickB_iff s1).mp hg.1.1, hg.1.2, ?_⟩ hstep) s' h
+        intro c hc; subst hc; simpa [watchOK] using hg.2
       · simp at h
     · simp at h
 
@@ -163,6 +171,16 @@ theorem step_server_result {cfg : Cfg} {s s' : St} {a : Act} (h : step cfg s a =
       · rename_i hcc; subst hcc; exact ⟨rfl, fun r h => h⟩
       · exact ⟨rfl, fun r h => h⟩
     · simp at h
+  | deadline c0 => simp only [step] at h; split at h <;> simp at h; subst h; exact ⟨rfl, fun r h => h⟩
+  | watch c0 =>
+    simp only [step] at h
+    repeat' (split at h)
+    all_goals (try (simp at h; done))
+    all_goals (injection h with h; subst h)
+    · exact hclose _ _
+    · dsimp only; simp only [upd_apply]; split
+      · rename_i hcc; subst hcc; refine ⟨rfl, fun r hr => ?_⟩; simp_all
+      · exact ⟨rfl, fun r h => h⟩
   | kick c0 =>
     simp only [step] at h
     split at h
@@ -282,6 +300,12 @@ theorem TD_RS_ext {cfg : Cfg} {s s' : St} {a : Act} (hna : ∀ i, a ≠ .task i)
         | spawn m d ev => simp [step] at h; subst h; simp at hj; omega
         | create d tag => simp [step] at h; subst h; simp at hj; omega
         | release c0 => simp only [step] at h; split at h <;> simp at h; subst h; simp at hj; omega
+        | deadline c0 => simp only [step] at h; split at h <;> simp at h; subst h; simp at hj; omega
+        | watch c0 =>
+          simp only [step] at h
+          repeat' (split at h)
+          all_goals (try (simp at h; done))
+          all_goals (injection h with h; subst h; simp at hj; omega)
         | kick c0 => simp only [step] at h; split at h <;> simp at h; subst h; simp at hj; omega
         | drop c0 => simp only [step] at h; split at h <;> simp at h; subst h; simp at hj; omega
         | quit => simp [step] at h; subst h; simp at hj; omega
@@ -302,6 +326,12 @@ theorem TD_RS_ext {cfg : Cfg} {s s' : St} {a : Act} (hna : ∀ i, a ≠ .task i)
       | spawn m d ev => simp [step] at h; subst h; simp [spawnTask_tasks] at hres
       | create d tag => simp [step] at h; subst h; simp [spawnTask_tasks] at hres
       | release c0 => simp only [step] at h; split at h <;> simp at h; subst h; simp at hj
+      | deadline c0 => simp only [step] at h; split at h <;> simp at h; subst h; simp at hj
+      | watch c0 =>
+        simp only [step] at h
+        repeat' (split at h)
+        all_goals (try (simp at h; done))
+        all_goals (injection h with h; subst h; simp at hj)
       | kick c0 => simp only [step] at h; split at h <;> simp at h; subst h; simp [spawnTask_tasks] at hres
       | drop c0 => simp only [step] at h; split at h <;> simp at h; subst h; simp [spawnTask_tasks] at hres
       | quit => simp [step] at h; subst h; simp at hj
@@ -314,9 +344,260 @@ theorem step_TD_RS {cfg : Cfg} {s s' : St} {a : Act} (hTC : TC s) (hTN : TN s) (
   | spawn m d ev => exact TD_RS_ext (by intro i; simp) hTC hTD hRS h
   | create d tag => exact TD_RS_ext (by intro i; simp) hTC hTD hRS h
   | release c0 => exact TD_RS_ext (by intro i; simp) hTC hTD hRS h
+  | deadline c0 => exact TD_RS_ext (by intro i; simp) hTC hTD hRS h
+  | watch c0 => exact TD_RS_ext (by intro i; simp) hTC hTD hRS h
   | kick c0 => exact TD_RS_ext (by intro i; simp) hTC hTD hRS h
   | drop c0 => exact TD_RS_ext (by intro i; simp) hTC hTD hRS h
   | quit => exact TD_RS_ext (by intro i; simp) hTC hTD hRS h
+
+/-! ### a request that reported failure leaves no live connection -/
+
+theorem closeConn_closed_stable (t : St) (o c : Nat) (h : (t.conns c).phase = .closed) :
+    ((closeConn t o).conns c).phase = .closed := by
+  rcases closeConn_conns_cases t o c with ⟨_, h1⟩ | ⟨_, _, h1⟩ | ⟨_, _, h1⟩ <;> rw [h1] <;> simp_all
+
+theorem closeOpt_closed_stable (t : St) (o : Option Nat) (c : Nat) (h : (t.conns c).phase = .closed) :
+    ((closeOpt t o).conns c).phase = .closed := by
+  cases o with
+  | none => exact h
+  | some o => exact closeConn_closed_stable t o c h
+
+theorem quitPlayer_closed_stable (t : St) (c : Nat) (h : (t.conns c).phase = .closed) :
+    ((quitPlayer t).conns c).phase = .closed := by
+  unfold quitPlayer
+  split
+  · exact h
+  · dsimp only
+    exact closeOpt_closed_stable _ _ _ (closeOpt_closed_stable { t with active := false } _ _ h)
+
+/-- a closed connection stays closed -/
+theorem step_closed_stable {cfg : Cfg} {s s' : St} {a : Act} (h : step cfg s a = some s') (c : Nat)
+    (hc : c < s.nconns) (hp : (s.conns c).phase = .closed) : (s'.conns c).phase = .closed := by
+  cases a with
+  | task i =>
+    simp only [step] at h
+    unfold stepTask at h
+    split at h
+    · simp at h
+    · simp only [] at h
+      cases hpc : (s.tasks i).pc <;> simp only [hpc] at h
+      all_goals (repeat' (split at h))
+      all_goals (try (simp at h; done))
+      all_goals (try (injection h with h; subst h))
+      all_goals first
+        | exact hp
+        | exact closeConn_closed_stable _ _ _ hp
+        | exact quitPlayer_closed_stable _ _ hp
+        | exact quitPlayer_closed_stable _ _ (closeConn_closed_stable _ _ _ hp)
+        | (try dsimp only
+           simp only [upd_apply]; split <;> first | omega | simp_all)
+  | back c0 =>
+    simp only [step] at h
+    unfold stepBack at h
+    split at h
+    · simp at h
+    · simp only [] at h
+      cases hh : (s.conns c0).h <;> simp only [hh] at h
+      all_goals (repeat' (split at h))
+      all_goals (try (simp at h; done))
+      all_goals (try (injection h with h; subst h))
+      all_goals first
+        | exact closeConn_closed_stable _ _ _ hp
+        | (try dsimp only [spawnTask_conns]
+           rw [setH_conns]; split
+           · rename_i hcc; subst hcc
+             first
+               | exact hp
+               | exact closeConn_closed_stable _ _ _ hp
+               | exact closeOpt_closed_stable _ _ _ hp
+           · first | exact hp | exact closeConn_closed_stable _ _ _ hp | exact closeOpt_closed_stable _ _ _ hp)
+        | (try dsimp only
+           simp only [upd_apply]; split
+           · rename_i hcc; subst hcc; simp_all
+           · exact hp)
+  | spawn m d ev => simp [step] at h; subst h; exact hp
+  | create d tag => simp [step] at h; subst h; exact hp
+  | release c0 =>
+    simp only [step] at h
+    split at h
+    · injection h with h; subst h
+      dsimp only; simp only [upd_apply]; split
+      · rename_i hcc; subst hcc; exact hp
+      · exact hp
+    · simp at h
+  | deadline c0 => simp only [step] at h; split at h <;> simp at h; subst h; exact hp
+  | watch c0 =>
+    simp only [step] at h
+    repeat' (split at h)
+    all_goals (try (simp at h; done))
+    all_goals (injection h with h; subst h)
+    · exact closeConn_closed_stable _ _ _ hp
+    · dsimp only; simp only [upd_apply]; split
+      · rename_i hcc; subst hcc; exact hp
+      · exact hp
+  | kick c0 =>
+    simp only [step] at h
+    split at h
+    · injection h with h; subst h; exact closeConn_closed_stable _ _ _ hp
+    · simp at h
+  | drop c0 =>
+    simp only [step] at h
+    split at h
+    · injection h with h; subst h; exact closeConn_closed_stable _ _ _ hp
+    · simp at h
+  | quit => simp [step] at h; subst h; exact quitPlayer_closed_stable _ _ hp
+
+/-- a closed connection whose read loop is idle never moves again: a late JoinGame is not handled -/
+theorem closed_conn_inert (cfg : Cfg) (s : St) (c : Nat) (hp : (s.conns c).phase = .closed)
+    (hh : (s.conns c).h = .idle) : step cfg s (.back c) = none := by
+  simp only [step]
+  unfold stepBack
+  split
+  · rfl
+  · simp [hh, hp]
+
+/-- what a request knows about its connection: its result is the connection's result (or the dial was refused) -/
+def RR (s : St) : Prop := ∀ i, i < s.ntasks → (pastWait (s.tasks i).pc = true ∨ (s.tasks i).pc = .done) →
+  ∀ c r, (s.tasks i).conn = some c → (s.tasks i).res = some r →
+  (s.conns c).result = some r ∨ (s.conns c).phase = .closed
+/-- a finished request that did not succeed has no live connection -/
+def FD (s : St) : Prop := ∀ i, i < s.ntasks → (s.tasks i).pc = .done → ∀ c r, (s.tasks i).conn = some c →
+  (s.tasks i).res = some r → r ≠ .ok → (s.conns c).phase = .closed
+
+theorem stepTask_RR {cfg : Cfg} {s s' : St} {i : Nat} (hTC : TC s) (hTN : TN s) (hRR : RR s) (hNK : NoKick s)
+    (h : stepTask cfg s i = some s') : RR s' := by
+  have hst : step cfg s (.task i) = some s' := by simpa [step] using h
+  have hsr := fun c hc => step_server_result hst c hc
+  have hcl := fun c hc => step_closed_stable hst c hc
+  have hck := checkServer_ne_ok s
+  unfold stepTask at h
+  split at h
+  · simp at h
+  · rename_i hi
+    have hi' : i < s.ntasks := by omega
+    have hTCi := hTC i hi'
+    have hTNi := hTN i hi'
+    have hRRi := hRR i hi'
+    have hNKi := hNK i hi'
+    simp only [] at h
+    cases hpc : (s.tasks i).pc <;> simp only [hpc] at h hNKi
+    all_goals (try (simp [isKickPc] at hNKi; done))
+    all_goals (repeat' (split at h))
+    all_goals (try (simp at h; done))
+    all_goals (try (injection h with h; subst h))
+    all_goals
+      (intro j hj hpj c r hcj hres
+       have hRRj := hRR j; have hTCj := hTC j
+       simp only [setPc_tasks, finish_tasks, upd_apply, setPc_ntasks, finish_ntasks, quitPlayer_tasks,
+         closeConn_tasks, quitPlayer_ntasks, closeConn_ntasks] at hj hpj hcj hres ⊢
+       first
+         | (split at hcj
+            · rename_i hji; subst hji
+              simp only [if_true] at hpj hres
+              first
+                | (simp_all [earlyPc, pastWait]; done)
+                | (simp at hcj hres
+                   have hlt := hTCi c (by simp_all)
+                   rcases hRRi (by simp_all [pastWait]) c r (by simp_all) (by simp_all) with h1 | h1
+                   · exact Or.inl ((hsr c hlt).2 _ h1)
+                   · exact Or.inr (hcl c hlt h1))
+                | (simp at hcj hres
+                   have hlt := hTCi c (by simp_all)
+                   first
+                     | (left; simp_all [upd_apply]; done)
+                     | (right; simp_all [upd_apply]; done))
+            · rename_i hji
+              rw [if_neg hji] at hres hpj
+              have hlt := hTCj hj c hcj
+              rcases hRRj hj hpj c r hcj hres with h1 | h1
+              · exact Or.inl ((hsr c hlt).2 _ h1)
+              · exact Or.inr (hcl c hlt h1))
+         | (have hlt := hTCj hj c hcj
+            rcases hRRj hj hpj c r hcj hres with h1 | h1
+            · exact Or.inl ((hsr c hlt).2 _ h1)
+            · exact Or.inr (hcl c hlt h1)))
+
+theorem RR_FD_ext {cfg : Cfg} {s s' : St} {a : Act} (hna : ∀ i, a ≠ .task i) (hTC : TC s) (hRR : RR s) (hFD : FD s)
+    (h : step cfg s a = some s') : RR s' ∧ FD s' := by
+  have he := step_tasksExt hna h
+  have hsr := fun c hc => step_server_result h c hc
+  have hcl := fun c hc => step_closed_stable h c hc
+  constructor
+  · intro j hj hpj c r hcj hres
+    by_cases hlt : j < s.ntasks
+    · rw [he.2.1 j hlt] at hcj hres hpj
+      have hc := hTC j hlt c hcj
+      rcases hRR j hlt hpj c r hcj hres with h1 | h1
+      · exact Or.inl ((hsr c hc).2 _ h1)
+      · exact Or.inr (hcl c hc h1)
+    · have := (he.2.2 j (by omega) hj).1; simp_all
+  · intro j hj hdone c r hcj hres hne
+    by_cases hlt : j < s.ntasks
+    · rw [he.2.1 j hlt] at hcj hres hdone
+      exact hcl c (hTC j hlt c hcj) (hFD j hlt hdone c r hcj hres hne)
+    · have := (he.2.2 j (by omega) hj).1; simp_all
+
+theorem stepTask_FD {cfg : Cfg} {s s' : St} {i : Nat} (hwc : cfg.watcherCloses = true) (hJP : JP s) (hTC : TC s)
+    (hRR : RR s) (hFD : FD s) (hNK : NoKick s) (h : stepTask cfg s i = some s') : FD s' := by
+  have hst : step cfg s (.task i) = some s' := by simpa [step] using h
+  have hcl := fun c hc => step_closed_stable hst c hc
+  intro j hj hdone c r hcj hres hne
+  -- either task j was already finished with the same data …
+  by_cases hold : j < s.ntasks ∧ (s.tasks j).pc = .done ∧ (s.tasks j).conn = some c ∧ (s.tasks j).res = some r
+  · obtain ⟨h1, h2, h3, h4⟩ := hold
+    exact hcl c (hTC j h1 c h3) (hFD j h1 h2 c r h3 h4 hne)
+  · -- … or it is the stepping task leaving `cancel`
+    unfold stepTask at h
+    split at h
+    · simp at h
+    · rename_i hi
+      have hi' : i < s.ntasks := by omega
+      have hTCi := hTC i hi'
+      have hRRi := hRR i hi'
+      have hNKi := hNK i hi'
+      simp only [] at h
+      cases hpc : (s.tasks i).pc <;> simp only [hpc] at h hNKi
+      all_goals (try (simp [isKickPc] at hNKi; done))
+      all_goals (repeat' (split at h))
+      all_goals (try (simp at h; done))
+      all_goals (try (injection h with h; subst h))
+      all_goals (simp only [setPc_tasks, finish_tasks, upd_apply, setPc_ntasks, finish_ntasks, quitPlayer_tasks,
+        closeConn_tasks, quitPlayer_ntasks, closeConn_ntasks, setPc_conns, finish_conns] at hj hdone hcj hres hold ⊢)
+      all_goals first
+        | (split at hdone <;> simp_all; done)
+        | (split at hdone
+           · rename_i hji; subst hji
+             simp only [if_true] at hcj hres
+             have hlt := hTCi c hcj
+             have hJc := hJP c hlt
+             rcases hRRi (by simp [pastWait, hpc]) c r hcj hres with h1 | h1
+             · have hph := hJc.2.2.2.2.2.2.2.2.2 r h1 hne
+               have hnd : (s.conns c).phase ≠ .dialing := by rcases hph with h | h | h <;> simp [h]
+               have hcc := closeConn_phase_self s c hnd
+               first
+                 | exact hcc
+                 | exact quitPlayer_closed_stable _ _ hcc
+                 | (rcases hph with h | h | h <;> simp_all <;> (try exact quitPlayer_closed_stable _ _ hcc); done)
+             · first
+                 | exact closeConn_closed_stable _ _ _ h1
+                 | exact quitPlayer_closed_stable _ _ (closeConn_closed_stable _ _ _ h1)
+                 | exact quitPlayer_closed_stable _ _ h1
+                 | exact h1
+           · simp_all)
+
+theorem step_RR_FD {cfg : Cfg} {s s' : St} {a : Act} (hwc : cfg.watcherCloses = true) (hJP : JP s) (hTC : TC s)
+    (hTN : TN s) (hRR : RR s) (hFD : FD s) (hNK : NoKick s) (h : step cfg s a = some s') : RR s' ∧ FD s' := by
+  cases a with
+  | task i => exact ⟨stepTask_RR hTC hTN hRR hNK h, stepTask_FD hwc hJP hTC hRR hFD hNK h⟩
+  | back c0 => exact RR_FD_ext (by intro i; simp) hTC hRR hFD h
+  | spawn m d ev => exact RR_FD_ext (by intro i; simp) hTC hRR hFD h
+  | create d tag => exact RR_FD_ext (by intro i; simp) hTC hRR hFD h
+  | release c0 => exact RR_FD_ext (by intro i; simp) hTC hRR hFD h
+  | deadline c0 => exact RR_FD_ext (by intro i; simp) hTC hRR hFD h
+  | watch c0 => exact RR_FD_ext (by intro i; simp) hTC hRR hFD h
+  | kick c0 => exact RR_FD_ext (by intro i; simp) hTC hRR hFD h
+  | drop c0 => exact RR_FD_ext (by intro i; simp) hTC hRR hFD h
+  | quit => exact RR_FD_ext (by intro i; simp) hTC hRR hFD h
 
 structure Inv2 (s : St) : Prop where
   i1 : Inv1 s
@@ -325,16 +606,21 @@ structure Inv2 (s : St) : Prop where
   act : s.active = true
   td : TD s
   rs : RS s
+  rr : RR s
+  fd : FD s
 
 theorem reach2_inv2 {cfg : Cfg} (hr : Repaired cfg) {s : St} (h : Reach cfg G2 s) : Inv2 s := by
   induction h with
   | init hi =>
     exact ⟨inv1_init _ hi.1 hi.2.1, core2_init _ hi.1 hi.2.2.2.1 hi.2.2.2.2.1, fun i hi' => by have := hi.2.1; omega,
-      hi.2.2.2.2.2, fun i hi' => by have := hi.2.1; omega, fun i hi' => by have := hi.2.1; omega⟩
+      hi.2.2.2.2.2, fun i hi' => by have := hi.2.1; omega, fun i hi' => by have := hi.2.1; omega,
+      fun i hi' => by have := hi.2.1; omega, fun i hi' => by have := hi.2.1; omega⟩
   | @step s s' a _ hg hs ih =>
     have hg1 : Guard1 s a := guard1_of_noKick ih.nk a (fun i hi => by subst hi; exact stepTask_lt hs)
     have htr := step_TD_RS ih.i1.tc ih.i1.tn ih.td ih.rs hs
-    exact ⟨inv1_step hr.1 hr.2.1 ih.i1 hg1 hs, core2_step hr.2.2 ih.i1 ih.c2 hg.2 ih.nk hg.1 hs, hg.1, hg.2, htr.1, htr.2⟩
+    have hrf := step_RR_FD hr.2.2.2 ih.i1.jp ih.i1.tc ih.i1.tn ih.rr ih.fd ih.nk hs
+    exact ⟨inv1_step hr.1 hr.2.1 hr.2.2.2 ih.i1 hg1 hs,
+      core2_step hr.2.2.1 hr.2.2.2 ih.i1 ih.c2 hg.2.1 ih.nk hg.1 hg.2.2 hs, hg.1, hg.2.1, htr.1, htr.2, hrf.1, hrf.2⟩
 
 
 theorem scanTry_sound (skip : Nat → Bool) : ∀ (l : List Nat) (i j x : Nat),
